@@ -78,7 +78,7 @@ def run_export(tid, sessions, opts, rng, directory=False):
     rec = {"tid": tid, "opts": opts, "sessions": sessions}
     tmp = tempfile.mkdtemp(prefix="verif-dom-")
     try:
-        box = [list, tuple, set][(len(sessions[0]["keys"]) + len(opts["include"]) + int(opts["enforce"])) % 3]   # any collection
+        box = [list, tuple, set][(len(sessions[0]["keys"] if sessions else []) + len(opts["include"]) + int(opts["enforce"])) % 3]   # any collection
         kw = dict(use_current=opts["useCurrent"], enforce_rules=opts["enforce"], include_groups=box(opts["include"]),
                   pool_groups=box(opts["pool"]))
         with warnings.catch_warnings():
@@ -155,6 +155,8 @@ def run(pid, tier):
             if j % 14 == 0:
                 three[rng.randrange(3)].update(orig=[], modi=[])
             recs.append(run_export(f"t{j}", three, opts, rng))
+    # an export without sessions
+    recs.append(run_export("z0", [], {"useCurrent": True, "enforce": True, "include": [], "pool": []}, rng))
     rejects, stats = core.validate_traces("Trace_DominionImport", recs,
                                           cfg_consts='CONSTANTS\n')
     rep.add_trace_stats("Trace_DominionImport", stats)
